@@ -253,6 +253,20 @@ func (e *Engine) addEdge(fr *Frame, incoming map[*ssa.BasicBlock][]edge, back ma
 		e.cutLoopBack(fr, to, ord, contract, st, cond, from)
 		return
 	}
+	// leaving a loop body: per-iteration postconditions must hold here too
+	if lc != nil {
+		for h, ord := range fr.loops {
+			c := lc[ord]
+			if c == nil || len(c.BodyEnsures) == 0 {
+				continue
+			}
+			blocks := loopBlocks(fr.fn, h, back)
+			if blocks[from] && !blocks[to] && from != h {
+				name := fmt.Sprintf("loop%d", ord)
+				e.checkBodyEnsures(fr, c, st, e.loopPre[name+fmt.Sprint(fr.id)], cond, name, "exit")
+			}
+		}
+	}
 	incoming[to] = append(incoming[to], edge{from, cond, st})
 }
 
@@ -736,6 +750,7 @@ func (e *Engine) cutLoopBack(fr *Frame, h *ssa.BasicBlock, ord int, lc *LoopCont
 	e.curLoopState = st
 	e.setIdx(fr, h)
 	if lc != nil {
+		e.checkBodyEnsures(fr, lc, st, pre, reach, name, "back")
 		for i, inv := range lc.Invariants {
 			env := e.loopEnv(fr, st, pre)
 			c, err := env.evalBool(inv.E)
@@ -767,8 +782,38 @@ func (e *Engine) cutLoopBack(fr *Frame, h *ssa.BasicBlock, ord int, lc *LoopCont
 	}
 }
 
+func (e *Engine) checkBodyEnsures(fr *Frame, lc *LoopContract, st, pre *State, reach Term, name, where string) {
+	clauses := lc.BodyEnsures
+	if where == "back" {
+		clauses = append(append([]*Clause{}, lc.BodyEnsures...), lc.IterEnsures...)
+	}
+	for i, be := range clauses {
+		env := e.loopEnv(fr, st, pre)
+		c, err := env.evalBool(be.E)
+		if err != nil {
+			e.contractError(be, err)
+			continue
+		}
+		lbl := be.Label
+		if lbl == "" {
+			lbl = fmt.Sprint(i + 1)
+		}
+		e.bodyOrd[name+where+lbl]++
+		o := e.oblige("body", fmt.Sprintf("body.%s@%s.%s%d", lbl, name, where, e.bodyOrd[name+where+lbl]), be.Text, reach, c, be)
+		if o != nil {
+			o.Props = be.Props
+		}
+	}
+}
+
 func (e *Engine) contractError(c *Clause, err error) {
-	e.cerrors = append(e.cerrors, fmt.Sprintf("%s: %s: %v", c.Src, c.Text, err))
+	msg := fmt.Sprintf("%s: %s: %v", c.Src, truncate(c.Text, 80), err)
+	for _, m := range e.cerrors {
+		if m == msg {
+			return
+		}
+	}
+	e.cerrors = append(e.cerrors, msg)
 }
 
 // ---------------------------------------------------------------- values
@@ -1544,12 +1589,12 @@ func (e *Engine) next(fr *Frame, st *State, reach Term, x *ssa.Next) Val {
 		id, ks := mapComps(mt)
 		ref := coll.L[0]
 		kv := e.havocVal(reach, "next.k", mt.Key())
-		hasArr := Select(st.comp(id+"has", ArraySort(SInt, ArraySort(ks, SBool))), ref, ArraySort(ks, SBool))
+		hasArr := e.name("nhas", Select(st.comp(id+"has", ArraySort(SInt, ArraySort(ks, SBool))), ref, ArraySort(ks, SBool)))
 		has := Select(hasArr, kv.L[0], SBool)
 		e.assume(reach, Implies(ok, And(Not(Eq(ref, IntLit(0))), has)))
 		// ghost: the set of keys already visited by this iteration
 		vname := "V.visited." + rng.Name()
-		vis := st.comp(vname, ArraySort(ks, SBool))
+		vis := e.name("nvis", st.comp(vname, ArraySort(ks, SBool)))
 		e.assume(reach, Implies(ok, Not(Select(vis, kv.L[0], SBool))))
 		qk := "(nk " + string(ks) + ")"
 		e.assume(reach, Implies(Not(ok), T(SBool, "(forall (%s) (! (=> (and (not (= %s 0)) (select %s nk)) (select %s nk)) :pattern ((select %s nk))))", qk, ref, hasArr, vis, hasArr)))
